@@ -71,10 +71,12 @@ Print Assumptions c09_no_reexecution_canonical.
    each on the image its predecessor left (Resume.crash_from).  If every trace is accepted by the resumed automaton
    and the images left by the crashed RECOVERIES (process 2 onwards) on which the plan is Running are well-formed,
    every EvStart of every process is of work that the image THAT process restarted on shows unfinished.
-   For rest = [] (two processes) there is no hypothesis left.  The remaining hypothesis cannot be removed by an
-   invariant: the resumed automaton does NOT preserve img_wf (Examples.resumed_run_breaks_img_wf: a recovery whose
-   bypass check now passes leaves plan Running / bypass Completed / block Running); the correspondence evaluates
-   img_wf on every real crash image of a recovery (ResumeCheck.check_rec, last component). *)
+   For rest = [] (two processes) there is no hypothesis left.  The resumed automaton does NOT preserve the
+   five-clause img_wf (Examples.resumed_run_breaks_img_wf: a recovery whose bypass check now passes leaves plan
+   Running / bypass Completed / block Running), but it does preserve the four-clause img_wf0 that the repair proof
+   reads, until the terminal plan write: coq/chain/props/C09.v (c09_crash_chain_unconditional) removes the remaining
+   hypothesis for any number of crashes.  The correspondence evaluates img_wf on every real crash image of a
+   recovery as well (ResumeCheck.check_rec, last component). *)
 Theorem c09_crash_chain_full :
   forall (d : devs) (sh : shape) (tr1 : list event) (s1 : st) (k : nat),
     run sh init tr1 = Some s1 ->
